@@ -23,7 +23,9 @@ pub struct TlsObs {
 pub struct TlsCase {
     pub tls13: bool,
     pub with_cert: bool,
-    /// 0 = client cert optional, 1 = required, 2 = no client auth, 3 = shim offers no TLS
+    /// 0 = client cert optional, 1 = required, 2 = no client auth, 3 = shim offers no TLS,
+    /// 4 = optional, trusting the root CA of an issued client certificate: the client (with_cert)
+    /// then presents a chain of two certificates (its own and the intermediate CA)
     pub server_mode: u8,
     pub user: Vec<u8>,
     pub cmds: Vec<Cmd>,
@@ -50,7 +52,7 @@ pub struct TlsCase {
 }
 
 pub fn run_tls(m: &TlsMaterial, c: &TlsCase) -> Result<TlsObs, String> {
-    let cfg = m.client_config(c.tls13, c.with_cert)?;
+    let cfg = if c.server_mode == 4 && c.with_cert { m.client_config_chain(c.tls13)? } else { m.client_config(c.tls13, c.with_cert)? };
     let mut conn = rustls::ClientConnection::new(cfg, tls::server_name()).map_err(|e| e.to_string())?;
     // the scripted client queues its whole plaintext at once; rustls' default 64 KiB limit is a
     // property of this harness's client, not of the server under test
@@ -120,6 +122,7 @@ pub fn run_tls(m: &TlsMaterial, c: &TlsCase) -> Result<TlsObs, String> {
         0 => Some(m.server_optional.clone()),
         1 => Some(m.server_required.clone()),
         2 => Some(m.server_noauth.clone()),
+        4 => Some(m.server_chain_optional.clone()),
         _ => None,
     };
     let _ = take_panic();
@@ -255,7 +258,8 @@ fn judge(m: &TlsMaterial, c: &TlsCase, o: &TlsObs, rep: &mut Report, d: &dyn Fn(
             fail("user-name-differs", format!("after_authentication saw {:?}, the encrypted handshake response carried {}", user.as_ref().map(|u| show(u)), show(&c.user)), rep);
             return;
         }
-        let want: Option<Vec<Vec<u8>>> = if c.with_cert && c.server_mode != 2 { Some(vec![m.client_cert_der.clone()]) } else { None };
+        // the whole chain the client presented, in order
+        let want: Option<Vec<Vec<u8>>> = if c.with_cert && c.server_mode == 4 { Some(m.client_chain_der.clone()) } else if c.with_cert && c.server_mode != 2 { Some(vec![m.client_cert_der.clone()]) } else { None };
         let got = certs.clone().filter(|v| !v.is_empty());
         if got != want {
             fail("client-certs-differ", format!("after_authentication saw {:?} certificates, the client presented {:?}", got.as_ref().map(|v| v.len()), want.as_ref().map(|v| v.len())), rep);
@@ -263,6 +267,9 @@ fn judge(m: &TlsMaterial, c: &TlsCase, o: &TlsObs, rep: &mut Report, d: &dyn Fn(
         }
         if want.is_some() {
             rep.counters.inc("client_cert_chains_compared");
+        }
+        if want.as_ref().map(|w| w.len() > 1).unwrap_or(false) {
+            rep.counters.inc("client_cert_chains_of_two_compared");
         }
     }
     // ---- nothing in plaintext after the upgrade
@@ -378,7 +385,7 @@ pub fn run(ctx: &Ctx) -> Report {
         rep.evaluations += 1;
         let cc = if cut == 0 { "none" } else if cut < 36 { "inside SSLRequest" } else if cut == 36 { "exactly after SSLRequest" } else if cut < 36 + 5 { "inside first TLS record header" } else if cut < 36 + hello_len { "inside ClientHello" } else { "at/after ClientHello end" };
         rep.counters.class(format!("first-read cut {} tls1.{} cert={} mode={}", cc, if tls13 { 3 } else { 2 }, with_cert, mode));
-        let d = || J::obj().set("first_read_bytes", cut).set("cut_class", cc).set("tls", if tls13 { "1.3" } else { "1.2" }).set("client_cert", with_cert).set("server_client_auth", ["optional", "required", "none", "no tls"][mode as usize]).set("commands", kinds_summary(&c.cmds)).set("first_reads", o.world.reads.iter().take(6).map(|&(a, n)| J::s(format!("{}+{}", a, n))).collect::<Vec<_>>()).set("outcome", o.outcome.describe());
+        let d = || J::obj().set("first_read_bytes", cut).set("cut_class", cc).set("tls", if tls13 { "1.3" } else { "1.2" }).set("client_cert", with_cert).set("server_client_auth", ["optional", "required", "none", "no tls", "optional (issued chain)"][mode as usize]).set("commands", kinds_summary(&c.cmds)).set("first_reads", o.world.reads.iter().take(6).map(|&(a, n)| J::s(format!("{}+{}", a, n))).collect::<Vec<_>>()).set("outcome", o.outcome.describe());
         if i < 2 {
             rep.sample(d());
         }
@@ -391,7 +398,7 @@ pub fn run(ctx: &Ctx) -> Report {
     let r = par_cases(ctx, "C18", "chunkings", n, |rng, i, rep| {
         let tls13 = rng.bool();
         let with_cert = rng.bool();
-        let mode = if with_cert { *rng.pick(&[0u8, 1, 2]) } else { *rng.pick(&[0u8, 2]) };
+        let mode = if with_cert { *rng.pick(&[0u8, 1, 2, 4, 4]) } else { *rng.pick(&[0u8, 2, 4]) };
         let (cyc_name, cycle): (&str, Vec<usize>) = match i % 8 {
             0 => ("1", vec![1]),
             1 => ("2", vec![2]),
@@ -420,7 +427,7 @@ pub fn run(ctx: &Ctx) -> Report {
         };
         rep.evaluations += 1;
         rep.counters.class(format!("reads={} tls1.{} cert={} mode={} wl={}", cyc_name, if tls13 { 3 } else { 2 }, with_cert, mode, if wl == usize::MAX { "inf".into() } else { wl.to_string() }));
-        let d = || J::obj().set("read_sizes", cyc_name).set("first_read_bytes", first_cut).set("write_limit", if wl == usize::MAX { -1 } else { wl as i64 }).set("tls", if tls13 { "1.3" } else { "1.2" }).set("client_cert", with_cert).set("server_client_auth", ["optional", "required", "none", "no tls"][mode as usize]).set("commands", kinds_summary(&c.cmds)).set("ended_by", if close_notify { "close_notify" } else { "QUIT" }).set("outcome", o.outcome.describe());
+        let d = || J::obj().set("read_sizes", cyc_name).set("first_read_bytes", first_cut).set("write_limit", if wl == usize::MAX { -1 } else { wl as i64 }).set("tls", if tls13 { "1.3" } else { "1.2" }).set("client_cert", with_cert).set("server_client_auth", ["optional", "required", "none", "no tls", "optional (issued chain)"][mode as usize]).set("commands", kinds_summary(&c.cmds)).set("ended_by", if close_notify { "close_notify" } else { "QUIT" }).set("outcome", o.outcome.describe());
         if i < 2 {
             rep.sample(d());
         }
@@ -492,6 +499,7 @@ pub fn run(ctx: &Ctx) -> Report {
         rep.require("refusals_checked", 10);
         rep.require("connections_with_reply_over_64k", 10);
         rep.require("client_cert_chains_compared", 10);
+        rep.require("client_cert_chains_of_two_compared", 5);
     }
     rep
 }
